@@ -59,6 +59,13 @@ def forwards_mask(an, g, node, callee) -> bool:
 
 def check(ctx):
     an, model = ctx.an, ctx.model
+    # shared clause (C01): to_tree recognises a list of configurations by `isinstance(value, list)` -- what a typed list field stores
+    # is its own proxy (a list), whatever sequence it was given; a tuple stored as a tuple passes the interception and is rendered
+    # by ListField.to_basic without the mask
+    from .c01 import check_container_validators
+    sub0 = type(ctx)(ctx.pid, ctx.an, ctx.tier)
+    check_container_validators(sub0)
+    ctx.obligations.extend(o for o in sub0.obligations if "container.returns-own-proxy" in o.rule)
     to_tree = model.method("Config", "to_tree")
     ctx.need(mask_param(to_tree) is not None, "Config.to_tree lost its sensitive_mask parameter")
     fam = to_tree_family(an)
